@@ -31,10 +31,11 @@ def reset (i : Inst) : State :=
   { chosen := fun _ => false, i := 0, mem := i.mem, weights := i.w, done := false }
 
 /-- `(chosen.unsqueeze(-1) * membership)`, scattered with `+= 1` into `n_items+1` columns, first
-column dropped, `> 0`: item `x` (0-based) occurs in a row of `membership` selected by `chosen`. -/
-def coveredBy (nSets maxSize : Nat) (mem : Nat → Nat → Nat) (chosen : Nat → Bool) (x : Nat) : Bool :=
+column dropped (`[:, off:]`, `off = 1` in the source), `> 0`: item `x` (0-based) occurs in a row of
+`membership` selected by `chosen`. -/
+def coveredBy (off nSets maxSize : Nat) (mem : Nat → Nat → Nat) (chosen : Nat → Bool) (x : Nat) : Bool :=
   (List.range nSets).any (fun j => (List.range maxSize).any (fun k =>
-    (if chosen j then mem j k else 0) == x + 1))
+    (if chosen j then mem j k else 0) == x + off))
 
 /-- `action_mask = ~chosen` -/
 def mask (_ : Inst) (s : State) (a : Nat) : Bool := !(s.chosen a)
@@ -44,9 +45,9 @@ previously chosen sets are already zero, and are multiplied into the *current* `
 def step (i : Inst) (s : State) (a : Nat) : State :=
   let chosen := upd s.chosen a true
   { chosen := chosen
-    done := Params.mcpDoneCmp.eval s.i (i.quota - 1)
-    mem := fun j k => if chosen j then 0 else s.mem j k
-    weights := fun x => s.weights x * (if coveredBy i.nSets i.maxSize s.mem chosen x then 0 else 1)
+    done := Params.mcpDoneCmp.eval s.i (i.quota - Params.mcpDoneOffset)
+    mem := fun j k => if (if Params.mcpKeepRemainingRows then !chosen j else chosen j) then s.mem j k else 0
+    weights := fun x => s.weights x * (if coveredBy Params.mcpStepItemOffset i.nSets i.maxSize s.mem chosen x then 0 else 1)
     i := s.i + 1 }
 
 def done (_ : Inst) (s : State) : Bool := s.done
@@ -60,6 +61,6 @@ def env : Env Inst State where
 
 /-- `_get_reward`: from `orig_membership`, `orig_weights` and the final `chosen`. -/
 def reward (i : Inst) (s : State) : Int :=
-  sumRange i.nItems (fun x => (if coveredBy i.nSets i.maxSize i.mem s.chosen x then 1 else 0) * i.w x)
+  sumRange i.nItems (fun x => (if coveredBy Params.mcpRewardItemOffset i.nSets i.maxSize i.mem s.chosen x then 1 else 0) * i.w x)
 
 end Rl4co.Mcp
